@@ -44,6 +44,9 @@ def generate(tape, tier="quick"):
             "units": tape.weighted([("m", 5), ("unset", 2), ("", 1)]),
             "mask": tape.weighted([("FLEX", 5), ("NONE", 2)] + ([("explicit", 3)] if pgrid == "G" else [])),
             "foo": tape.choice(["absent", "unset", "x"])}
+    if pgrid == "nogrid" and tape.chance(1, 2):
+        # data without spatial reference but with a declared shape (-1: flexible axis)
+        prod["ngshape"] = tape.choice([[4, -1], [3], [-1], [2, 3], [-1, 2]])
     cons = []
     n = tape.weighted([(1, 5), (2, 3), (3, 1)])
     # at most one injected conflict per scenario (about a third of the runs)
@@ -63,7 +66,7 @@ def generate(tape, tier="quick"):
         adapter = tape.weighted([(None, 7), ("scale", 2)])
         if pgrid == "G" and grid == "unset" and tape.chance(1, 5):
             adapter = "grid2val"
-        if pgrid == "nogrid" and grid != "nogrid" and tape.chance(1, 5):
+        if pgrid == "nogrid" and grid != "nogrid" and not prod.get("ngshape") and tape.chance(1, 5):
             adapter, grid = "val2grid", "same"
         if prod["units"] in ("m", "") and units == "unset" and tape.chance(1, 6):
             adapter = "sum"
@@ -75,6 +78,9 @@ def generate(tape, tier="quick"):
         if bad:
             if conflict_kind == "grid":
                 grid = "other" if pgrid != "nogrid" else "same"
+                if pgrid == "nogrid" and prod.get("ngshape") and tape.chance(2, 3):
+                    # another declared shape: one fixed axis differs, or a fixed axis meets a flexible one
+                    grid, adapter = "nogrid_other", None
             elif conflict_kind == "units":
                 units = "s"
             elif conflict_kind == "mask":
@@ -84,6 +90,8 @@ def generate(tape, tier="quick"):
                     mask = "other" if prod["mask"] == "explicit" else "same"
             else:
                 adapter = tape.choice(["grid2val", "val2grid", "sum"])
+                if prod.get("ngshape"):
+                    adapter = "sum"       # the grid adapters are only modelled for the plain NoGrid()
         c = {"time": not tape.chance(1, 3), "grid": grid, "units": units, "mask": mask,
              "foo": tape.choice(["absent", "unset", "y"]), "adapter": adapter}
         if c["grid"] == "relayout":
@@ -109,7 +117,19 @@ def execute(sc):
     g = sc["g"]
     G, MG = make_grid(g), MGrid(g)
     p = sc["prod"]
-    pg = {"G": G, "unset": None, "nogrid": NoGrid()}[p["grid"]]
+    def ng(shape):
+        return NoGrid(data_shape=tuple(shape)) if shape else NoGrid()
+
+    def ng_other(shape):
+        s = list(shape)
+        k = next((j for j, x in enumerate(s) if x != -1), None)
+        if k is None:
+            s[0] = 5            # flexible axis against a fixed one
+        else:
+            s[k] = s[k] + 1     # another fixed length; flexible axes stay
+        return s
+
+    pg = {"G": G, "unset": None, "nogrid": ng(p.get("ngshape"))}[p["grid"]]
     pu = {"m": "m", "unset": None, "": ""}[p["units"]]
     pmeta = {}
     if p["foo"] != "absent":
@@ -131,7 +151,9 @@ def execute(sc):
         elif c["grid"] == "same":
             cg, cm = make_grid(g), MG
         elif c["grid"] == "nogrid":
-            cg, cm = NoGrid(), "nogrid"
+            cg, cm = ng(p.get("ngshape")), "nogrid"
+        elif c["grid"] == "nogrid_other":
+            cg, cm = ng(ng_other(p["ngshape"])), "nogrid_other"
         else:
             cg, cm = None, None
         cu = None if c["units"] == "unset" else c["units"]
@@ -183,7 +205,7 @@ def execute(sc):
 
     # ---- expectation from the property text --------------------------------------
     def locset(m):
-        return None if m is None else ("nogrid" if m == "nogrid" else m.location_set())
+        return None if m is None else (m if m in ("nogrid", "nogrid_other") else m.location_set())
 
     conflict, undetermined = [], []
     # what each consumer effectively asks from the output (through its adapter)
